@@ -203,6 +203,7 @@ func runProperty(prop, tier, repo, verif string, seed int, list bool) int {
 			fmt.Printf("%-10s %-70s %s  %s\n", o.Status, o.Key, o.Pos, o.Detail)
 		}
 	}
+	res.Quiet = list
 	return res.Report(verif, ff, seed)
 }
 
